@@ -50,6 +50,7 @@ static long g_senders;            /* senders constructed by this call */
 static sp_t sp_move(sp_t *src) { sp_t t = *src; *src = NULL; return t; }
 static sp_t sp_copy(sp_t p) { if (p && p->g_refs < VX_BIG) p->g_refs++; return p; }
 static void *val_copy(void *v) { if (v && g_value_refs < VX_BIG) g_value_refs++; return v; }
+static void *val_raw(void *v) { return v; }   /* shared_ptr<T>::get(): the address without a share of the ownership */
 static void ss_done_from_dtor(struct ss *p);
 static void sp_release(sp_t *sp)
 {
